@@ -53,7 +53,7 @@ fn ref_cos(a: &[f64], b: &[f64]) -> f64 {
 
 pub fn run(tier: Tier) -> Report {
     let rep = Report::new("C16", tier);
-    rep.set_rule("every length 0..=130 x value menus (ramp, alternating, magnitudes 1e-3..1e3, negative, every one-hot position): round trip; every pair of menu vectors per length and every ordered pair of lengths: euclidean / cosine against f64 scalar formulas on the common packed prefix; all triples from a 24-vector menu per length class: triangle inequality; parallel / opposite / scaled vectors for cosine. All cases enumerated without repetition.");
+    rep.set_rule("every length 0..=130 x value menus (ramp, alternating, magnitudes 1e-3..1e3, negative, every one-hot position): round trip; every pair of menu vectors per length and every ordered pair of lengths: euclidean / cosine against f64 scalar formulas on the common packed prefix; all triples from a 24-vector menu per length class: triangle inequality; parallel / opposite / scaled vectors for cosine; nearly equal vectors far from the origin (components about 50 / 100 / 1000, differences .002 ... .5): euclidean within a tolerance relative to the DISTANCE, triangle inequality. All cases enumerated without repetition.");
     let maxlen = 130usize;
     let evals = AtomicU64::new(0);
     let eps = 5.96e-8f64;
@@ -232,6 +232,55 @@ pub fn run(tier: Tier) -> Report {
             }
         }
     });
+
+    // 5. nearly equal vectors far from the origin (the same object on consecutive frames, unnormalised
+    //    embeddings): the textbook sum of squared differences is accurate RELATIVE TO THE DISTANCE there (the
+    //    differences of nearby f32 values are exact or nearly so), so the tolerance is relative to the reference
+    //    distance, not to the size of the components; triangle inequality over the same vectors
+    {
+        let lens: Vec<usize> = tier.pick(vec![1, 3, 8, 9, 17, 64], vec![1, 2, 3, 7, 8, 9, 16, 17, 33, 64, 128, 130]);
+        par_for(lens.len(), 1, |li| {
+            let n = lens[li];
+            for base in [50.0f32, 100.0, 1000.0] {
+                for step in [0.002f32, 0.01, 0.05, 0.5] {
+                    // a, and five neighbours at growing distance along different patterns
+                    let a: Vec<f32> = (0..n).map(|i| base + (i % 11) as f32 * 0.37).collect();
+                    let mut vs: Vec<Vec<f32>> = vec![a.clone()];
+                    for k in 1..=5usize {
+                        vs.push((0..n).map(|i| a[i] + step * k as f32 * (((i + k) % 3) as f32 - 1.0 + 0.25 * k as f32)).collect());
+                    }
+                    let fs: Vec<Feature> = vs.iter().map(|v| Feature::from_vec(v)).collect();
+                    let blocks = (n + 7) / 8;
+                    let pd: Vec<Vec<f64>> = vs.iter().map(|v| pad(v, blocks)).collect();
+                    let m = vs.len();
+                    let mut d = vec![0.0f64; m * m];
+                    for i in 0..m {
+                        for j in 0..m {
+                            evals.fetch_add(1, Ordering::Relaxed);
+                            let e = euclidean(&fs[i], &fs[j]);
+                            let er = ref_eu(&pd[i], &pd[j]);
+                            d[i * m + j] = e as f64;
+                            let tol = (n as f64 + 16.0) * 8.0 * eps * er + 1e-30;
+                            if !e.is_finite() || (e as f64 - er).abs() > tol {
+                                rep.violation(Violation { key: "euclidean/value/close-vectors-far-from-origin".into(), what: format!("len {n}, components about {base}, differences about {step}: euclidean {e}, reference {er} (tolerance {tol:e}, relative to the distance)"), replay: json!({"part":"close-vectors","len":n,"base":base,"step":step,"i":i,"j":j}) });
+                            }
+                        }
+                    }
+                    for i in 0..m {
+                        for j in 0..m {
+                            for k in 0..m {
+                                let (ab, bc, ac) = (d[i * m + j], d[j * m + k], d[i * m + k]);
+                                let tol = (n as f64 + 16.0) * 16.0 * eps * (ab + bc + ac).max(1e-30);
+                                if !(ac <= ab + bc + tol) {
+                                    rep.violation(Violation { key: "euclidean/triangle/close-vectors-far-from-origin".into(), what: format!("len {n}, components about {base}: d(a,c)={ac} > d(a,b)+d(b,c)={}", ab + bc), replay: json!({"part":"close-vectors-triangle","len":n,"base":base,"step":step,"i":i,"j":j,"k":k}) });
+                                }
+                            }
+                        }
+                    }
+                }
+            }
+        });
+    }
 
     let e = evals.load(Ordering::Relaxed);
     rep.add(e, e, e, e);
